@@ -18,6 +18,8 @@ TABLE = {
     "C09": ("p_c09", 320, 8000),
     "C10": ("p_c10", 1200, 40000),
     "C18": ("p_c18", 1200, 40000),
+    "C15": ("p_c15", 300, 4000),
+    "C16": ("p_c16", 800, 16000),
 }
 
 LEVEL = {}
@@ -38,6 +40,8 @@ RULE["C08"] = "random models x random histories of 1-5 operations drawn from sim
 RULE["C09"] = "per model (random incl. facility-rich, double weight on FF/SF edges, chains/diamonds): reference run, then K runs under permuted ID-keyed hash assignments (quick 6, thorough 24; all n! for small n) = different set iteration orders, one run with native address hashes after allocating garbage, a second simulate() on the same object, simulate() after a random history (incl. absence edits) on the same object, and a fresh model simulated after a history on ANOTHER project (default-argument simulate, insert_absence_time_list); every 20th case runs 8 models in a fresh interpreter with a different PYTHONHASHSEED; all comparisons exact on the complete dump; mutable defaults / module globals of pDESy.model are snapshotted and compared around every case; non-trivial = model with an FF/SF edge or two tasks finishing in the same step"
 RULE["C10"] = "even cases: random models (30% automatic tasks, individual absences) under project absence lists containing step 0, consecutive steps and steps beyond the end, both flag settings, with the in-step monitor (no progress / no allocation / ABSENCE logged / zero cost at project absence steps; automatic tasks progress iff the flag is set; individually absent resources contribute and cost nothing); odd cases: differential (exact, all logs) between simulate(absence=L)+remove_absence_time_list() and simulate() on the class (no individual absences, no component-bound automatic task, flag off or no automatic task) for absence-free runs that succeed; non-trivial = >= 1 project absence step while some task is WORKING"
 RULE["C18"] = "random simulated models (40% facility-rich, half with a project absence list, 15% containing a BaseSubProjectTask) followed by 1-4 remove/insert edits with index lists drawn from {interior, step 0, last, beyond the end, duplicates of present steps, empty, unsorted, mixed}; every third case is insert-then-remove on an absence-free result compared with the logs before; after each edit every log (reflection) must have changed by the same amount and equal project.time, inserted steps must be zero-cost / no-work; non-trivial = an interior index edited on a run with >= 1 placement"
+RULE["C15"] = "random models (35% facility-rich) and perturbed fixtures; reference = uninterrupted run under a fixed hash assignment; for pause points k (quick: 0, 1, T-1, T and 3 random; thorough: EVERY k in [0, T]) a fresh model is simulated to max_time=k and resumed with both initialisations off, in memory and through write_simple_json -> new project -> read_simple_json; complete dumps (logs, costs, time, status, final live state) compared exactly; the JSON variant is only demanded when every constructor parameter of every object (runtime reflection) equals the original after the load; non-trivial = a pause strictly inside the run while a task is WORKING"
+RULE["C16"] = "3 of 4 cases: random models (40% facility-rich, 20% with a BaseSubProjectTask, edge values 0/-1 in due times) brought to one of 8 stages (never simulated, initialized, paused at k, finished forward, finished backward with/without log reversal, after insert_absence_time_list, after remove_absence_time_list), then write -> read into a new project -> write again: JSON files compared value-for-value, every cross reference checked for identity membership in the restored project (explicit list + generic sweep over all attributes), re-simulation of original and restored project compared exactly when no constructor parameter was lost; 1 of 4 cases: parameter coverage by execution - one constructor parameter (runtime reflection over 7 classes) is perturbed on up to 14 generated models: if any dump changes it is observed simulation-relevant and must then survive save/load; non-trivial = stage other than never-simulated with a live allocation or placement (stage cases), parameter observed relevant (param cases)"
 # minimal number of non-trivial cases / monitor evaluations for a conclusive run: (counter, quick, thorough)
 FLOORS = {
     "C01": [("C01.transitions", 2000, 50000), ("C01.nonFS_active", 100, 3000)],
@@ -51,6 +55,8 @@ FLOORS = {
     "C09": [("C09.comparisons", 2000, 100000), ("C09.distinct_set_orders", 800, 40000), ("C09.fresh_process_runs", 60, 1500)],
     "C10": [("C10.absence_task_checks", 5000, 150000), ("C10.equivalence_comparisons", 300, 10000), ("C10.individual_absence_checks", 50, 1500)],
     "C18": [("C18.edits", 1500, 50000), ("C18.log_delta_checks", 50000, 1500000), ("C18.roundtrip_comparisons", 150, 5000)],
+    "C15": [("C15.memory_resumes", 1000, 60000), ("C15.json_resumes", 200, 10000), ("C15.pauses_inside_run_with_working_task", 200, 20000)],
+    "C16": [("C16.roundtrip_comparisons", 300, 8000), ("C16.reference_checks", 10000, 300000), ("C16.resimulations", 50, 1500), ("C16.param_observed_relevant", 15, 400)],
     "C06": [("C06.pairs_examined", 1000, 30000), ("C06.none_checks", 1000, 30000)],
     "C07": [("C07.resource_step_checks", 20000, 500000)],
     "C13": [("C13.moves", 300, 10000), ("C13.site_checks", 300, 10000)],
